@@ -385,7 +385,65 @@ def extract_decl_attr_rules(repo: Path):
     return rules
 
 
+def probe_decl_attr_rules():
+    """The same table as `extract_decl_attr_rules`, obtained by RUNNING `line_to_variables` (through the real parser)
+    on one declaration per keyword instead of reading the if-chain: used when the chain is written in a shape the
+    AST reader does not know (a dictionary lookup, a helper function, ...).  The vocabulary is the one of the Fortran
+    standard that FORD maps to a field; every other attribute must be kept in `attribs` as written.  The result is in
+    the canonical order of the as-found chain; raises (tie broken) when the observed behaviour is not expressible as
+    such a table."""
+    common.import_ford()
+    from ford.settings import ProjectSettings
+    from ford.sourceform import FortranSourceFile
+
+    canon = [("public", "permission"), ("private", "permission"), ("protected", "permission"), ("optional", "optional"),
+             ("parameter", "parameter"), ("intent(in)", ("intent", "in")), ("intent(out)", ("intent", "out")),
+             ("intent(inout)", ("intent", "inout"))]
+    others = ["allocatable", "target", "save", "dimension(2)", "pointer", "volatile", "intent(in out)x", "publicx", "optionaly",
+              "codimension[*]", "contiguous", "asynchronous", "value", "bind(c)"]
+    spellings = lambda k: [k, k.upper(), k.replace("(", " ( ").replace(")", " )") if "(" in k else k.capitalize()]  # noqa
+    lines, want = [], []
+    for k, act in canon:
+        for sp in spellings(k):
+            lines.append(f"  integer, {sp} :: v{len(lines)}" + (" = 1" if k == "parameter" else ""))
+            want.append((k, act, sp))
+    for o in others:
+        lines.append(f"  integer, {o} :: v{len(lines)}")
+        want.append((o, "kept", o))
+    with common.scratch_dir("ford-probe-") as d:
+        f = d / "probe.f90"
+        f.write_text("subroutine probe_s(" + ", ".join(f"v{i}" for i in range(len(lines))) + ")\n" + "\n".join(lines) + "\nend subroutine probe_s\n")
+        with common.quiet():
+            src = FortranSourceFile(str(f), ProjectSettings())
+        sub = src.subroutines[0]
+        got = {v.name: v for v in list(sub.variables) + [a for a in sub.args if not isinstance(a, str)]}
+    rules = []
+    for i, (k, act, sp) in enumerate(want):
+        v = got.get(f"v{i}")
+        if v is None:
+            raise RuntimeError(f"probe of line_to_variables: `integer, {sp} :: v{i}` declared nothing")
+        fields = dict(permission=v.permission, optional=bool(v.optional), parameter=bool(v.parameter), intent=v.intent or "",
+                      attribs=list(v.attribs))
+        base = dict(permission="public", optional=False, parameter=False, intent="", attribs=[])
+        if act == "permission":
+            base["permission"] = k
+        elif act == "optional":
+            base["optional"] = True
+        elif act == "parameter":
+            base["parameter"] = True
+        elif act == "kept":
+            base["attribs"] = [sp]
+        else:
+            base["intent"] = act[1]
+        if fields != base:
+            raise RuntimeError(f"probe of line_to_variables: attribute {sp!r} gives {fields}, the if-chain model says {base}")
+        if act != "kept" and (k, act) not in rules:
+            rules.append((k, act))
+    return rules
+
+
 DECL_RULES: list = []  # filled by translate()
+DECL_RULES_HOW: list = []  # non-empty when the table was obtained by probing the code
 
 PREFIX: dict = {}  # filled by translate(): {"table": [...], "byword": bool}
 
@@ -428,7 +486,12 @@ def translate():
     check_function_initialize(repo)
     PREFIX.clear()
     PREFIX.update(table=list(table), byword=byword)
-    rules = extract_decl_attr_rules(repo)
+    try:
+        rules = extract_decl_attr_rules(repo)
+    except RuntimeError as e:
+        # the if-chain is spelt in a way the AST reader does not know: ask the code what it does
+        rules = probe_decl_attr_rules()
+        DECL_RULES_HOW.append(f"probed (AST reader: {e})")
     DECL_RULES.clear()
     DECL_RULES.extend(rules)
 
